@@ -231,8 +231,12 @@ Definition run_tree (x : sx) : sx :=
                             | Some og => Some (allowed_by parsed og) end) probes in
   let enc := fun rs => SL (map enc_origin_res rs) in
   let me := tree_elems t in
-  verdict (sx_eqb (enc model) (SL impl) && sx_eqb (SL (map SB me)) (SL (map SB impl_elems)))
-          (sx_eqb (enc spec) (SL impl))
+  (* the same verdicts observed through the public API (ACAO echoed on a GET); an unparsable origin is never granted *)
+  let via := get_list (field "viamw" l) in
+  let granted := fun rs => SL (map (fun r => match r with Some true => sbool true | _ => sbool false end) rs) in
+  let via_ok := fun rs => match via with [SY _] => true | _ => sx_eqb (granted rs) (SL via) end in
+  verdict (sx_eqb (enc model) (SL impl) && sx_eqb (SL (map SB me)) (SL (map SB impl_elems)) && via_ok model)
+          (sx_eqb (enc spec) (SL impl) && via_ok spec)
           (SL [enc model; SL (map SB me)]).
 
 
